@@ -109,7 +109,8 @@ Fixpoint cache_del (c : cache) (k : region) : cache :=
 Definition cache_put (c : cache) (k : region) (d : bytes) : cache := (k, d) :: cache_del c k.
 
 (* ---- configuration and shared state of one blob ---- *)
-Record cfg := mkCfg { c_size : Z; c_cs : Z; c_pcs : Z; c_force : bool }.
+(* c_handler: the blob is served by a custom remote.Handler (remoteFetcher) instead of the HTTP fetcher *)
+Record cfg := mkCfg { c_size : Z; c_cs : Z; c_pcs : Z; c_force : bool; c_handler : bool }.
 Record st := mkSt {
   s_cache : cache;               (* chunks currently in the cache *)
   s_fetched : list region;       (* fetchedRegionSet.rs *)
@@ -128,12 +129,15 @@ Inductive resp :=
 | RFail                                                   (* other status, transport error, unparsable headers *)
 | RRedirOK | RRedirFail                                   (* answer to the redirect request of refreshURL / resolve *)
 | RSize (sz : Z)                                          (* HEAD 200 (or GET fallback) reporting this size *)
-| RChkOK.                                                 (* check(): 200 / 206 *)
+| RChkOK                                                  (* check(): 200 / 206; Handler: Check() = nil *)
+| RH (b : Z) (body : bytes).                              (* Handler: Fetch(b, _) returned a reader carrying body *)
 
 (* requests the implementation sends (compared with the server's log) *)
 Inductive req :=
 | QData (ranges : list region)
-| QRedir | QHead | QSizeGet | QCheck.
+| QRedir | QHead | QSizeGet | QCheck
+| QFetch (r : region)                                     (* Handler: Fetch(r.b, r.size()) *)
+| QHandle.                                                (* Handler: Handle(desc) *)
 
 Inductive status := SOk | SErr | SPanic | SBadScript.
 
@@ -195,6 +199,26 @@ Definition fetch0 (single : bool) (regs : list region) (rs : list resp) : fres *
           end
       end
   end.
+
+(* remoteFetcher.fetch: squash, ask the Handler for the one super-region, hand its reader over as a single part
+   labelled with the REQUESTED region (nothing the Handler says is looked at) *)
+Definition fetchH (regs : list region) (rs : list resp) : fres * list resp * list req :=
+  match super_region (squash regs) with
+  | None => (FBad, rs, [])
+  | Some reg =>
+      match rs with
+      | [] => (FBad, [], [])
+      | RH b body :: rest =>
+          if b =? rb reg then (FParts [(reg, body)] true, rest, [QFetch reg]) else (FBad, rest, [QFetch reg])
+      | RFail :: rest => (FErr, rest, [QFetch reg])
+      | _ :: rest => (FBad, rest, [QFetch reg])
+      end
+  end.
+
+(* the blob's fetcher, whichever kind it is *)
+Definition fetch_any (c : cfg) (single : bool) (regs : list region) (rs : list resp) : fres * bool * list resp * list req :=
+  if c_handler c then let '(f, rest, q) := fetchH regs rs in (f, single, rest, q)
+  else fetch0 single regs rs.
 
 (* ---- fetchRegions: chunk and cache the replied data ---- *)
 Record fstate := mkF {
@@ -288,7 +312,7 @@ Definition fetch_range (c : cfg) (s : st) (p : bytes) (ws : list writer) (rs : l
   match ws with
   | [] => (s, p, ws, SOk, [])
   | _ =>
-      let '(fr, single', _, q) := fetch0 (s_single s) (map w_chunk ws) rs in
+      let '(fr, single', _, q) := fetch_any c (s_single s) (map w_chunk ws) rs in
       match fr with
       | FBad => (mkSt (s_cache s) (s_fetched s) single' (s_ever s), p, ws, SBadScript, q)
       | FErr => (mkSt (s_cache s) (s_fetched s) single' (s_ever s), p, ws, SErr, q)
@@ -374,14 +398,14 @@ Definition read_at (c : cfg) (s : st) (off : Z) (p0 : bytes) (rs : list resp) : 
 (* ---- Cache / cacheAt ---- *)
 Definition discard_writer (c : region) : writer := mkW c 0 0 0 0.   (* io.Discard *)
 
-Definition cache_at (c : cfg) (s : st) (off sz : Z) (rs : list resp) : st * status * list req :=
+(* cacheAt, first half: walk the chunks of [off, off+sz) and keep an io.Discard writer for every chunk the
+   cache does not hold at this moment; None = the walk error *)
+Definition cache_lookup (c : cfg) (s : st) (off sz : Z) : option (list writer) :=
   match walk_chunks (c_size c) (c_cs c) (all_region (c_cs c) off sz) with
-  | None => (s, SErr, [])
+  | None => None
   | Some chunks =>
-      let ws := map discard_writer
-                    (filter (fun k => match cache_get (s_cache s) k with Some _ => false | None => true end) chunks) in
-      let '(s', _, _, stt, q) := fetch_range c s [] ws rs in
-      (s', stt, q)
+      Some (map discard_writer
+              (filter (fun k => match cache_get (s_cache s) k with Some _ => false | None => true end) chunks))
   end.
 
 (* the (offset, length) pieces of Cache(): one cacheAt when prefetchChunkSize <= chunkSize, else
@@ -398,15 +422,41 @@ Definition cache_pieces (c : cfg) (off sz : Z) : list (Z * Z) :=
     let fsz := c_cs c * Z.quot (c_pcs c) (c_cs c) in
     pieces_loop (Z.to_nat (sz / fsz + 1)) off (off + sz) fsz.
 
-(* number of data responses one piece consumes is not known in advance: each piece gets its own script *)
-Fixpoint cache_op (c : cfg) (s : st) (ps : list (Z * Z)) (scripts : list (list resp)) : st * status * list req :=
-  match ps with
-  | [] => (s, SOk, [])
-  | (o, z) :: t =>
-      let '(s', stt, q) := cache_at c s o z (hd [] scripts) in
-      match stt with
-      | SOk => let '(s'', stt', q') := cache_op c s' t (tl scripts) in (s'', stt', q ++ q')
-      | _ => (s', stt, q)
+(* Cache() runs one cacheAt per piece; with more than one piece each runs in its own goroutine (errgroup, no
+   cancellation: every piece runs to its end, the call reports an error if any piece failed).  A piece has two
+   atomic sub-steps: (i, false) = its cache walk (cache_lookup), (i, true) = its fetchRange on the writers it
+   collected then.  A schedule is any interleaving of the sub-steps; piece i consumes the script [nth i scripts]. *)
+Definition sstep := (nat * bool)%type.
+
+Fixpoint pend_get (pend : list (nat * list writer)) (i : nat) : option (list writer) :=
+  match pend with
+  | [] => None
+  | (j, ws) :: t => if Nat.eqb j i then Some ws else pend_get t i
+  end.
+
+Fixpoint cache_sched (c : cfg) (s : st) (ps : list (Z * Z)) (pend : list (nat * list writer)) (sc : list sstep)
+         (scripts : list (list resp)) (failed : bool) : st * status * list req :=
+  match sc with
+  | [] => (s, if failed then SErr else SOk, [])
+  | (i, false) :: t =>
+      match nth_error ps i with
+      | None => (s, SBadScript, [])
+      | Some (o, z) =>
+          match cache_lookup c s o z with
+          | None => cache_sched c s ps pend t scripts true
+          | Some ws => cache_sched c s ps ((i, ws) :: pend) t scripts failed
+          end
+      end
+  | (i, true) :: t =>
+      match pend_get pend i with
+      | None => cache_sched c s ps pend t scripts failed        (* that piece has already returned *)
+      | Some ws =>
+          let '(s', _, _, stt, q) := fetch_range c s [] ws (nth i scripts []) in
+          match stt with
+          | SOk => let '(s'', stt', q') := cache_sched c s' ps pend t scripts failed in (s'', stt', q ++ q')
+          | SErr => let '(s'', stt', q') := cache_sched c s' ps pend t scripts true in (s'', stt', q ++ q')
+          | _ => (s', stt, q)
+          end
       end
   end.
 
@@ -426,6 +476,14 @@ Definition check_op (rs : list resp) : status * list req :=
    multi-range mode unless ForceSingleRangeMode *)
 Definition refresh_op (c : cfg) (s : st) (rs : list resp) : st * status * list req :=
   let fresh := mkSt (s_cache s) (s_fetched s) (c_force c) (s_ever s) in
+  if c_handler c then
+    (* Handle(desc) again; when it fails the default (HTTP) resolution is tried, which has no registry here *)
+    match rs with
+    | RSize sz :: _ => if sz =? c_size c then (s, SOk, [QHandle]) else (s, SErr, [QHandle])
+    | RFail :: _ => (s, SErr, [QHandle])
+    | _ => (s, SBadScript, [])
+    end
+  else
   match rs with
   | RRedirOK :: RSize sz :: _ => if sz =? c_size c then (fresh, SOk, [QRedir; QHead]) else (s, SErr, [QRedir; QHead])
   | RRedirOK :: RFail :: RSize sz :: _ =>
@@ -439,7 +497,7 @@ Definition refresh_op (c : cfg) (s : st) (rs : list resp) : st * status * list r
 (* ---- the sequential machine ---- *)
 Inductive op :=
 | ReadAt (off : Z) (p0 : bytes) (rs : list resp)
-| CacheOp (off sz : Z) (scripts : list (list resp))
+| CacheOp (off sz : Z) (sc : list sstep) (scripts : list (list resp))
 | Evict (r : region)
 | CheckOp (rs : list resp)
 | RefreshOp (rs : list resp).
@@ -449,8 +507,9 @@ Definition evict (s : st) (r : region) : st := mkSt (cache_del (s_cache s) r) (s
 Definition step (c : cfg) (s : st) (o : op) : st * result * list req :=
   match o with
   | ReadAt off p0 rs => read_at c s off p0 rs
-  | CacheOp off sz scripts =>
-      let '(s', stt, q) := cache_op c s (cache_pieces c off sz) scripts in (s', status_result stt (ROk []), q)
+  | CacheOp off sz sc scripts =>
+      let '(s', stt, q) := cache_sched c s (cache_pieces c off sz) [] sc scripts false in
+      (s', status_result stt (ROk []), q)
   | Evict r => (evict s r, ROk [], [])
   | CheckOp rs => let '(stt, q) := check_op rs in (s, status_result stt (ROk []), q)
   | RefreshOp rs => let '(s', stt, q) := refresh_op c s rs in (s', status_result stt (ROk []), q)
@@ -509,7 +568,7 @@ Fixpoint conc_rounds (c : cfg) (f : fstate) (rounds : list round) : fstate * sta
   match rounds with
   | [] => (f, SErr)                                 (* schedule cut: the call has not returned (reported as error) *)
   | Lead single rs :: _ =>
-      let '(fr, _, _, _) := fetch0 single (map w_chunk (f_ws f)) rs in
+      let '(fr, _, _, _) := fetch_any c single (map w_chunk (f_ws f)) rs in
       match fr with
       | FParts parts ok => fetch_regions c (mkF (f_cache f) (f_fetched f) (f_ever f) (f_p f) (f_ws f) []) parts ok
       | _ => (f, SErr)
@@ -558,6 +617,7 @@ Definition resp_honest (B : bytes) (r : resp) : Prop :=
   | R200 _ body => body_honest B 0 body
   | R206S reg body => body_honest B (rb reg) body
   | R206M parts _ => Forall (part_honest B) parts
+  | RH b body => body_honest B b body
   | _ => True
   end.
 
@@ -571,7 +631,7 @@ Definition lookup_honest (B : bytes) (c : region) (lk : lookup) : Prop :=
 Definition op_resps (o : op) : list resp :=
   match o with
   | ReadAt _ _ rs => rs
-  | CacheOp _ _ scripts => concat scripts
+  | CacheOp _ _ _ scripts => concat scripts
   | CheckOp rs | RefreshOp rs => rs
   | Evict _ => []
   end.
@@ -612,7 +672,8 @@ Definition result_eqb (a b : result) : bool :=
 Definition req_eqb (a b : req) : bool :=
   match a, b with
   | QData x, QData y => regions_eqb x y
-  | QRedir, QRedir | QHead, QHead | QSizeGet, QSizeGet | QCheck, QCheck => true
+  | QRedir, QRedir | QHead, QHead | QSizeGet, QSizeGet | QCheck, QCheck | QHandle, QHandle => true
+  | QFetch x, QFetch y => region_eqb x y
   | _, _ => false
   end.
 Fixpoint reqs_eqb (a b : list req) : bool :=
